@@ -320,7 +320,9 @@ pub fn run_c11(ctx: &mut Ctx) {
     let n = ctx.budget(1500, 60000);
     for i in 0..n {
         let exotic = i % 4 != 0;
-        let s = gen::ws_text(&mut ctx.rng, if i % 10 == 0 { 40 } else { 12 }, exotic);
+        // a few long texts (block-wise processing, buffer sizes): lengths around powers of two
+        let maxlen = if i % 150 == 7 { [1000usize, 4100, 8200][ctx.rng.random_range(0..3)] } else if i % 10 == 0 { 40 } else { 12 };
+        let s = gen::ws_text(&mut ctx.rng, maxlen, exotic);
         let g = ctx.rng.random_bool(0.5);
         for op in ["clean", "wb", "remove", "full"] {
             ctx.case(op, &req_gtext(&s, g));
@@ -371,7 +373,12 @@ pub fn run_c10(ctx: &mut Ctx) {
         let g = ctx.rng.random_bool(0.5);
         let exotic = i % 3 != 0;
         // clean stream (70 %), error stream (30 %)
-        let (f, t) = if i % 10 < 7 {
+        let (f, t) = if i % 300 == 11 {
+            // long texts
+            let nwords = [300usize, 1100][ctx.rng.random_range(0..2)];
+            let base = gen::clean_text(&mut ctx.rng, nwords, exotic);
+            (respace(&mut ctx.rng, &base, g), respace(&mut ctx.rng, &base, g))
+        } else if i % 10 < 7 {
             let base = gen::clean_text(&mut ctx.rng, 5, exotic);
             (respace(&mut ctx.rng, &base, g), respace(&mut ctx.rng, &base, g))
         } else if i % 10 < 9 {
@@ -400,7 +407,16 @@ pub fn run_c14(ctx: &mut Ctx) {
     let n = ctx.budget(3000, 150000);
     for i in 0..n {
         let g = ctx.rng.random_bool(0.5);
-        let s = if i % 20 == 19 { gen::ws_text(&mut ctx.rng, 10, true) } else { gen::clean_text(&mut ctx.rng, 6, i % 3 != 0) };
+        let s = if i % 300 == 13 {
+            {
+                let nwords = [300usize, 1100][ctx.rng.random_range(0..2)];
+                gen::clean_text(&mut ctx.rng, nwords, i % 3 != 0)
+            }
+        } else if i % 20 == 19 {
+            gen::ws_text(&mut ctx.rng, 10, true)
+        } else {
+            gen::clean_text(&mut ctx.rng, 6, i % 3 != 0)
+        };
         let seed: u64 = gen::seed(&mut ctx.rng);
         let probs = [0u64, 0, 100, 300, 500, 900, 1000];
         let mut iw = probs[ctx.rng.random_range(0..probs.len())];
